@@ -1,7 +1,10 @@
 """
 C16 — a token tree only ever holds its owner's signed chain, in any order.
 
-Link to the code (no translator: tree.py is control flow over dicts, not tables):
+Link to the code:
+  * translator tools/gen_c16.py regenerates lean/Ipv8/C16/GenConst.lean (default waiting-area size, default maxdepth,
+    wire field widths, chunk size) from tree.py / token.py on every run; the rest of tree.py is control flow over
+    dicts, not tables, and is tied by
   * correspondence: every scenario (a key, a forest of really signed tokens mixed with forged / foreign / dangling /
     duplicate ones, an arrival order, and a list of API calls) is executed on the real TokenTree / Token objects and on
     the Lean model (driver drv_c16, whose abstract hash / signature check are instantiated with tables measured on
@@ -36,7 +39,7 @@ RULE = ("scenario = (tree key, waiting-area cap, forest shape {chain, star, rand
         "is mixed in")
 TRUSTED_BASE = [
     "hand-written Lean model of tokentree/tree.py, token.py, signed_object.py (Ipv8/C16/Model.lean), tied to the code by "
-    "the correspondence run only (no translator)",
+    "the correspondence run; tools/gen_c16.py (AST extraction of five constants) for GenConst.lean",
     "SHA3-256 and the signature scheme are an abstract interface in the model; theorems assume only what they state "
     "(hash injective on the offered tokens for completeness / order independence; nothing for soundness)",
     "Python object aliasing (a caller mutating a Token after offering it) is outside the model: tokens are values",
